@@ -15,6 +15,14 @@ compared *with each other* through independent numerical transforms:
   * f(k) == kappa * (2/k) int_0^inf V(r) sin(2 pi k r) r dr  (3-D Fourier transform, QUADPACK QAWO), i.e. the
     real-space and reciprocal-space forms describe the same atom.
 
+History cases (state reused across requests / objects / precisions): several parametrization objects of one class are
+built in one process from different tables (packaged file, dict of lists, dict of float64/float32 ndarrays, `from_json`,
+perturbed custom tables, with/without `sigmas`) and are asked, alternately and partially, for their four functions under
+float64 and float32.  Every returned function is compared with a float64 closed-form reference evaluated here from *that
+object's own table* (Fourier pairs of the tabulated scattering-factor form), repeated requests must return the same
+values, the stored table must be bit-identical before and after every request (and survive `to_json`), and at the end
+each (object, element) must still satisfy f/kappa, the line-integral and (peng/kirkland) the Hankel relation.
+
 Tables: lobato.json, kirkland.json, peng_high.json (the three defaults) and peng_low.json (the second neutral-atom
 Peng table; same code path, other coefficients).  peng_ionic.json is outside the statement (ions have negative
 electron scattering factors at low k and positive charges raise NotImplementedError by design).
@@ -31,10 +39,14 @@ RULE = ("one case = (table in lobato/kirkland/peng_high/peng_low, element of tha
         "the end points, 5 spatial frequencies uniform in [0,6] 1/A incl. 0 and 6, precision float64 or float32, input dtype); "
         "quick: 3 fixed + ~9 random elements per table, thorough: every element of every table (402 table entries) plus random "
         "re-draws; non-trivial = all six relations evaluated for the element; distinct = distinct (table, element, radii, "
-        "frequencies, precision)")
+        "frequencies, precision); ~30% history cases: 2-3 objects of one class (lobato/kirkland/peng) built from file / dict of "
+        "lists / dict of float64 or float32 arrays / from_json, unperturbed or perturbed tables, optional sigmas, 8-16 requests "
+        "(object, function, element, precision) with repeats, alternation and partial function sets; non-trivial = >= 2 objects "
+        "with different tables or a repeated request on an array-backed table")
 CLAUSES = ["potential-positive", "potential-decreasing", "scattering-factor-positive", "scattering-factor-decreasing",
            "projected-potential-is-line-integral", "projected-scattering-factor-is-2d-transform",
-           "projected-scattering-factor-is-f-over-kappa", "scattering-factor-is-3d-transform", "all-elements-callable"]
+           "projected-scattering-factor-is-f-over-kappa", "scattering-factor-is-3d-transform", "all-elements-callable",
+           "history:function-of-own-table", "history:repeatable", "history:table-unchanged", "history:consistent-at-end"]
 QUICK = dict(n=34, time=45)
 THOROUGH = dict(n=1000, time=400, shards=16)
 ASSUMPTIONS = ["radii in [0.01, 6] A and spatial frequencies in [0, 6] 1/A (the range used by abTEM's integrators and grids)",
@@ -74,13 +86,15 @@ def _case(rng, table, symbol):
 
 
 def gen(rng, tier):
+    if rng.random() < 0.3:
+        return gen_history(rng)
     table = str(rng.choice(list(TABLES)))
     syms = symbols(table)
     return _case(rng, table, str(syms[int(rng.integers(0, len(syms)))]))
 
 
 def fixed_cases(tier):
-    out = []
+    out = list(FIXED_HISTORIES)
     for table in TABLES:
         syms = symbols(table)
         chosen = syms if tier == "thorough" else [syms[0], syms[13], syms[-1]]
@@ -116,6 +130,8 @@ def _support(vp):
     r = np.geomspace(0.5, 600.0, 100)
     y = np.abs(np.asarray(vp(r), dtype=np.float64)) * r * r
     big = np.nonzero(y > 1e-13 * y.max())[0]
+    if len(big) == 0:
+        return 30.0
     return float(min(600.0, 1.3 * r[min(big[-1] + 1, len(r) - 1)]))
 
 
@@ -167,6 +183,8 @@ def check(ctx, case):
     import abtem.parametrizations as P
     from vf import gen as G
 
+    if case.get("kind") == "history":
+        return check_history(ctx, case)
     table, sym = case["table"], case["symbol"]
     f32 = case["precision"] == "float32"
     dt = np.float32 if case["input_dtype"] == "float32" else np.float64
@@ -250,3 +268,283 @@ def check(ctx, case):
             judged["sine"] += 1
             ctx.close(fi, s, "scattering-factor-is-3d-transform", rtol=rt, table=table, symbol=sym, k=float(ki))
     ctx.nontrivial(judged["proj"] >= 3 and judged["hankel"] >= 3 and judged["sine"] >= 3)
+
+
+# ----------------------------------------------------------------------------------- histories on parametrization objects
+CLASSES = {"lobato": ("LobatoParametrization", ["lobato.json"]), "kirkland": ("KirklandParametrization", ["kirkland.json"]),
+           "peng": ("PengParametrization", ["peng_high.json", "peng_low.json"])}
+FUNCS = ["potential", "scattering_factor", "projected_potential", "projected_scattering_factor"]
+BUILDS = ["file", "dict-lists", "dict-arrays", "dict-arrays32", "from_json"]
+H_SYMBOLS = ["H", "C", "O", "Si", "Cu", "Mo", "Au", "U"]
+H_R = np.array([0.05, 0.3, 1.0, 2.5])
+H_K = np.array([0.0, 0.5, 1.5, 4.0])
+
+
+def gen_history(rng):
+    cls = str(rng.choice(list(CLASSES)))
+    files = CLASSES[cls][1]
+    nobj = int(rng.integers(1, 4))
+    objects = []
+    for i in range(nobj):
+        build = str(rng.choice(BUILDS))
+        perturb = None
+        if build != "file" and rng.random() < 0.6:
+            perturb = {"amp": float(rng.uniform(0.7, 1.4)), "width": float(rng.uniform(0.6, 1.6)),
+                       "dw": float(rng.uniform(0.0, 1.5))}
+        objects.append({"build": build, "file": str(rng.choice(files)), "perturb": perturb,
+                        "sigmas": None if rng.random() < 0.7 else float(rng.uniform(0.05, 0.2))})
+    symbols = [str(x) for x in rng.choice(H_SYMBOLS, size=int(rng.integers(1, 4)), replace=False)]
+    requests = []
+    for _ in range(int(rng.integers(8, 17))):
+        if requests and rng.random() < 0.3:
+            o, f, sy, _p = requests[int(rng.integers(0, len(requests)))]       # repeat (same or other precision / object)
+            if rng.random() < 0.5:
+                o = int(rng.integers(0, nobj))
+        else:
+            o, f, sy = int(rng.integers(0, nobj)), str(rng.choice(FUNCS)), str(rng.choice(symbols))
+        requests.append([o, f, sy, "float32" if rng.random() < 0.3 else "float64"])
+    return {"kind": "history", "cls": cls, "objects": objects, "symbols": symbols, "requests": requests}
+
+
+def _seq(objs, reqs, precision="float64"):
+    return [[o, f, s, precision] for o, f, s in reqs]
+
+
+FIXED_HISTORIES = [
+    # one array-backed Peng object asked twice / for several functions of the same element (tables from a dict of arrays
+    # and from from_json are the documented ways to supply custom parameters)
+    {"kind": "history", "cls": "peng", "symbols": ["C", "Si"],
+     "objects": [{"build": "dict-arrays", "file": "peng_high.json", "perturb": None, "sigmas": None},
+                 {"build": "from_json", "file": "peng_high.json", "perturb": None, "sigmas": None}],
+     "requests": _seq(2, [(0, "projected_potential", "C"), (0, "projected_scattering_factor", "C"),
+                          (0, "projected_scattering_factor", "C"), (0, "potential", "Si"), (0, "scattering_factor", "Si"),
+                          (1, "potential", "C"), (1, "scattering_factor", "C"), (1, "potential", "C")])},
+    # default Peng object used for its real-space forms only, then a second object with a Debye-Waller factor folded into
+    # the exponents, then the first one again; second block repeats the pattern under float32
+    {"kind": "history", "cls": "peng", "symbols": ["Si", "Au"],
+     "objects": [{"build": "file", "file": "peng_high.json", "perturb": None, "sigmas": None},
+                 {"build": "dict-lists", "file": "peng_high.json", "perturb": {"amp": 1.0, "width": 1.0, "dw": 0.79},
+                  "sigmas": 0.1},
+                 {"build": "file", "file": "peng_low.json", "perturb": None, "sigmas": None}],
+     "requests": _seq(3, [(0, "potential", "Si"), (0, "projected_potential", "Si"), (0, "potential", "Au"),
+                          (1, "projected_potential", "Si"), (1, "projected_scattering_factor", "Si"), (1, "potential", "Au"),
+                          (2, "potential", "Si"), (2, "scattering_factor", "Si"), (0, "scattering_factor", "Si")]) +
+     _seq(3, [(1, "scattering_factor", "Au"), (0, "scattering_factor", "Au"), (1, "scattering_factor", "Au")], "float32")},
+    # the same alternation for the other two classes, both precisions
+    {"kind": "history", "cls": "lobato", "symbols": ["O", "Cu"],
+     "objects": [{"build": "file", "file": "lobato.json", "perturb": None, "sigmas": None},
+                 {"build": "dict-arrays", "file": "lobato.json", "perturb": {"amp": 1.2, "width": 0.8, "dw": 0.0},
+                  "sigmas": None}],
+     "requests": _seq(2, [(0, "potential", "O"), (0, "scattering_factor", "Cu"), (1, "potential", "O"),
+                          (1, "projected_scattering_factor", "O"), (1, "scattering_factor", "Cu"), (1, "potential", "O"),
+                          (0, "projected_scattering_factor", "O")]) +
+     _seq(2, [(0, "potential", "O"), (1, "potential", "O")], "float32")},
+    {"kind": "history", "cls": "kirkland", "symbols": ["C", "Mo"],
+     "objects": [{"build": "from_json", "file": "kirkland.json", "perturb": {"amp": 0.9, "width": 1.3, "dw": 0.0},
+                  "sigmas": None},
+                 {"build": "file", "file": "kirkland.json", "perturb": None, "sigmas": 0.08}],
+     "requests": _seq(2, [(0, "projected_potential", "C"), (0, "projected_potential", "C"), (1, "projected_potential", "C"),
+                          (1, "scattering_factor", "Mo"), (0, "scattering_factor", "Mo"), (0, "potential", "Mo"),
+                          (1, "potential", "Mo")])},
+]
+
+
+def _file_table(name):
+    import abtem.parametrizations as P
+    with open(os.path.join(P._get_data_path(), name)) as f:
+        return json.load(f)
+
+
+def own_table(cls, spec, symbols):
+    """The table an object is meant to hold: {symbol: float64 array}, computed here from the json file."""
+    raw = _file_table(spec["file"])
+    out = {}
+    for sy in symbols:
+        t = np.array(raw[sy], dtype=np.float64)
+        p = spec["perturb"]
+        if p:
+            if cls == "peng":                 # amplitudes scaled, Debye-Waller factor folded into the exponents
+                t[0] *= p["amp"]
+                t[1] = t[1] * p["width"] + p["dw"]
+            elif cls == "lobato":
+                t[0] *= p["amp"]
+                t[1] *= p["width"]
+            else:
+                t[0] *= p["amp"]
+                t[2] *= p["amp"]
+                t[1] *= p["width"]
+                t[3] *= p["width"]
+        out[sy] = t
+    return out
+
+
+def reference(cls, t, name, x):
+    """Closed forms (float64) of the four functions for one table entry: the tabulated scattering-factor form and its
+    Fourier partners V = FT3[f]/kappa, Vp = int V dz, fp = f/kappa."""
+    from scipy.special import kn
+    x = np.asarray(x, dtype=np.float64)[:, None]
+    if cls == "peng":
+        a, b = t[0][None], t[1][None] / 4.0                      # s = k/2
+        if name == "scattering_factor":
+            y = a * np.exp(-b * x)
+        elif name == "projected_scattering_factor":
+            y = a * INV_KAPPA * np.exp(-b * x)
+        elif name == "potential":
+            y = INV_KAPPA * a * (np.pi / b) ** 1.5 * np.exp(-np.pi ** 2 * x ** 2 / b)
+        else:
+            y = INV_KAPPA * a * (np.pi / b) * np.exp(-np.pi ** 2 * x ** 2 / b)
+    elif cls == "lobato":
+        a, b = t[0][None], t[1][None]
+        A, B = np.pi ** 2 * a / b ** 1.5 * INV_KAPPA, 2 * np.pi / np.sqrt(b)
+        if name == "scattering_factor":
+            y = a * (2 + b * x) / (1 + b * x) ** 2
+        elif name == "projected_scattering_factor":
+            q = 4 * np.pi ** 2 * x
+            y = 8 * np.pi * (A / B / (q + B ** 2) + A * B / (q + B ** 2) ** 2)
+        elif name == "potential":
+            y = A * (2 / (B * x) + 1) * np.exp(-B * x)
+        else:
+            y = 2 * (2 * A / B * kn(0, B * x) + A * x * kn(1, B * x))
+    else:
+        a, b, c, d = (t[i][None] for i in range(4))
+        A, B, Cc, Dd = np.pi * a * INV_KAPPA, 2 * np.pi * np.sqrt(b), np.pi ** 1.5 * c / d ** 1.5 * INV_KAPPA, np.pi ** 2 / d
+        if name == "scattering_factor":
+            y = a / (b + x) + c * np.exp(-d * x)
+        elif name == "projected_scattering_factor":
+            y = 4 * np.pi * A / (4 * np.pi ** 2 * x + B ** 2) + np.sqrt(np.pi / Dd) * Cc * np.pi / Dd * np.exp(-np.pi ** 2 * x / Dd)
+        elif name == "potential":
+            y = A * np.exp(-B * x) / x + Cc * np.exp(-Dd * x ** 2)
+        else:
+            y = 2 * A * kn(0, B * x) + np.sqrt(np.pi / Dd) * Cc * np.exp(-Dd * x ** 2)
+    return y.sum(1)
+
+
+def _arg(name):
+    return H_R if name in ("potential", "projected_potential") else H_K ** 2
+
+
+def _snapshot(par):
+    return {k: (type(v).__name__, np.array(v, dtype=np.float64).copy(), getattr(v, "dtype", None))
+            for k, v in par.parameters.items()}
+
+
+def _same_table(snap, par):
+    if set(snap) != set(par.parameters):
+        return "keys changed"
+    for k, (tname, arr_, dt) in snap.items():
+        v = par.parameters[k]
+        if type(v).__name__ != tname or getattr(v, "dtype", None) != dt:
+            return "%s: container %s/%s -> %s/%s" % (k, tname, dt, type(v).__name__, getattr(v, "dtype", None))
+        now = np.array(v, dtype=np.float64)
+        if now.shape != arr_.shape or not np.array_equal(now, arr_):
+            return "%s: values changed (max ratio %.6g)" % (k, float(np.nanmax(np.abs(now / arr_)))
+                                                           if now.shape == arr_.shape else float("nan"))
+    return None
+
+
+def check_history(ctx, case):
+    import tempfile
+    import abtem.parametrizations as P
+    from vf import gen as G
+    cls = case["cls"]
+    klass = getattr(P, CLASSES[cls][0])
+    symbols = case["symbols"]
+    tables, objs = [], []
+    with tempfile.TemporaryDirectory() as tmp:
+        for i, spec in enumerate(case["objects"]):
+            t = own_table(cls, spec, symbols)
+            tables.append(t)
+            kw = {} if spec["sigmas"] is None else {"sigmas": spec["sigmas"]}
+            b = spec["build"]
+            if b == "file" and not spec["perturb"]:
+                par = klass(spec["file"], **kw)
+            elif b in ("file", "dict-lists"):
+                par = klass({k: v.tolist() for k, v in t.items()}, **kw)
+            elif b == "dict-arrays":
+                par = klass({k: v.copy() for k, v in t.items()}, **kw)
+            elif b == "dict-arrays32":
+                t = {k: v.astype(np.float32).astype(np.float64) for k, v in t.items()}
+                tables[-1] = t
+                par = klass({k: v.astype(np.float32) for k, v in t.items()}, **kw)
+            else:
+                path = os.path.join(tmp, "table%d.json" % i)
+                with open(path, "w") as f:
+                    json.dump({k: v.tolist() for k, v in t.items()}, f)
+                par = klass(**kw)
+                par.from_json(path)
+            objs.append(par)
+        snaps = [_snapshot(o) for o in objs]
+        seen = {}
+        array_backed_repeat = False
+        for step, (o, name, sy, prec) in enumerate(case["requests"]):
+            par, t = objs[o], tables[o][sy]
+            # a float32 table makes abTEM scale the coefficients in float32 arithmetic: float32-level agreement only
+            rt = 2e-3 if (prec == "float32" or case["objects"][o]["build"] == "dict-arrays32") else 2e-6
+            with G.precision(prec):
+                fn = getattr(par, name)(sy)
+                x = _arg(name)
+                got = np.asarray(fn(x), dtype=np.float64)
+                again = np.asarray(getattr(par, name)(sy)(x), dtype=np.float64)
+            want = reference(cls, t, name, x)
+            ctx.close(got, want, "history:function-of-own-table", rtol=rt, scale=None, atol=rt * 1e-6 * float(np.abs(want).max()),
+                      step=step, obj=o, build=case["objects"][o]["build"], function=name, symbol=sy, precision=prec,
+                      worst=float(np.max(np.abs(got / want - 1))))
+            # element-wise relative comparison (values span many decades)
+            ctx.expect(np.all(np.abs(got - want) <= rt * np.abs(want) + 1e-300), "history:function-of-own-table", step=step,
+                       obj=o, function=name, symbol=sy, precision=prec, got=got, want=want)
+            ctx.expect(np.array_equal(got, again), "history:repeatable", step=step, obj=o, function=name, symbol=sy,
+                       what="two consecutive requests differ")
+            key = (o, name, sy, prec)
+            if key in seen:
+                ctx.expect(np.array_equal(got, seen[key]), "history:repeatable", step=step, obj=o, function=name, symbol=sy,
+                           what="differs from the same request at step %d" % seen[(key, "step")])
+                if case["objects"][o]["build"] in ("dict-arrays", "dict-arrays32", "from_json"):
+                    array_backed_repeat = True
+            else:
+                seen[key] = got
+                seen[(key, "step")] = step
+            for j, (snap, other) in enumerate(zip(snaps, objs)):
+                changed = _same_table(snap, other)
+                ctx.expect(changed is None, "history:table-unchanged", step=step, requested_obj=o, changed_obj=j,
+                           function=name, symbol=sy, change=changed)
+                if changed is not None:
+                    snaps[j] = _snapshot(other)          # report each modification once
+            ctx.monitor("history-requests")
+
+        # ---- serialisation keeps the table (array-backed objects; to_json needs ndarray entries)
+        for i, (par, spec) in enumerate(zip(objs, case["objects"])):
+            if spec["build"] in ("dict-arrays", "from_json"):
+                path = os.path.join(tmp, "out%d.json" % i)
+                par.to_json(path)
+                with open(path) as f:
+                    back = json.load(f)
+                ok = all(np.array_equal(np.array(back[sy], dtype=np.float64), tables[i][sy]) for sy in symbols)
+                ctx.expect(ok, "history:table-unchanged", what="to_json wrote a different table", obj=i)
+
+        # ---- after the history every (object, element) still describes one atom
+        for i, par in enumerate(objs):
+            loose = 1000.0 if case["objects"][i]["build"] == "dict-arrays32" else 1.0
+            for sy in symbols:
+                with G.precision("float64"):
+                    V, F = par.potential(sy), par.scattering_factor(sy)
+                    VP, PF = par.projected_potential(sy), par.projected_scattering_factor(sy)
+                    pf = np.asarray(PF(H_K ** 2), dtype=np.float64)
+                    f = np.asarray(F(H_K ** 2), dtype=np.float64)
+                    ctx.close(pf * KAPPA / f, np.ones(len(H_K)), "history:consistent-at-end", rtol=0, atol=2e-6 * loose, obj=i,
+                              symbol=sy, relation="f/kappa")
+                    for r in (0.3, 1.0):
+                        ref, err = line_integral(V, r)
+                        if err <= 1e-7 * abs(ref):
+                            ctx.close(float(np.asarray(VP(np.array([r])), dtype=np.float64)[0]), ref,
+                                      "history:consistent-at-end", rtol=2e-6 * loose, obj=i, symbol=sy, relation="line-integral", r=r)
+                    if cls != "lobato":
+                        rmax = _support(VP)
+                        h = hankel(VP, 0.5, rmax, per_period=8)
+                        ctx.close(float(np.asarray(PF(np.array([0.25])), dtype=np.float64)[0]), h, "history:consistent-at-end",
+                                  rtol=5e-6 * loose, obj=i, symbol=sy, relation="hankel")
+                    s_, err = sine_transform(V, 1.5)
+                    if err <= 1e-7 * abs(s_):
+                        ctx.close(float(np.asarray(F(np.array([2.25])), dtype=np.float64)[0]), s_, "history:consistent-at-end",
+                                  rtol=2e-6 * loose, obj=i, symbol=sy, relation="sine-transform")
+    distinct_tables = len({json.dumps({k: v.tolist() for k, v in t.items()}, sort_keys=True) for t in tables})
+    ctx.nontrivial(distinct_tables >= 2 or array_backed_repeat)
